@@ -110,17 +110,114 @@ class FlattenItems(Contract):
                 ("uses", ex_(F, uses) == z3.Or(ex_(src, uses, hi=p), ex_(S, uses, hi=st.k)))]
 
 
-def loop_specs(th):
-    L = th.lshape
-    return {(U + "flatten_items", 0): LoopSpec({"flattened": L}, FlattenItems.outer),
-            (U + "flatten_items", 1): LoopSpec({"flattened": L}, FlattenItems.inner)}
+def comb_of(kind):
+    return z3.And if kind == "MultiMarker" else z3.Or
+
+
+class Of(Contract):
+    """MultiMarker.of / MarkerUnion.of: the result evaluates as the conjunction / disjunction of the arguments and
+    mentions only variables the arguments mention"""
+
+    def __init__(self, th, kind):
+        self.th, self.kind = th, kind
+        self.target = (MM if kind == "MultiMarker" else MU) + "of"
+
+    def result(self, ex, args):
+        return self.th.shape.fresh("of")
+
+    def ensures(self, ex, args, result):
+        ms = args[1].alist if hasattr(args[1], "alist") else args[1]
+        if not isinstance(result, AbsObj):
+            return [("returns-marker", z3.BoolVal(False))]
+        r = result.term
+        return [("C02.ev", ev(r) == fold(self.kind, ms)), ("C12.uses", z3.Implies(uses(r), ex_(ms, uses)))]
+
+    def allowed_raise(self, ex, args, exc):
+        return z3.BoolVal(False)
+
+    def cases(self, th):
+        from pyvc.calls import StarArgs
+        yield self.kind, [ClassRef(th.index.cls(self.kind)), StarArgs(th.lshape.fresh("markers"))], []
+
+    # ---- invariants
+    def outer(self, st):
+        ms, new = st.pre("markers"), st.loc("new_markers")
+        return [("len", new.n >= 0), ("fold", fold(self.kind, new) == fold(self.kind, ms)), ("uses", z3.Implies(ex_(new, uses), ex_(ms, uses)))]
+
+    def middle(self, st):
+        old, new = st.loc("old_markers"), st.loc("new_markers")
+        return [("len", new.n >= 0), ("fold", comb_of(self.kind)(fold(self.kind, new), fold(self.kind, old, lo=st.k)) == fold(self.kind, old)),
+                ("uses", z3.Implies(ex_(new, uses), ex_(old, uses)))]
+
+    def inner(self, st):
+        new, pre = st.loc("new_markers"), st.pre("new_markers")
+        flag = st.loc("intersected" if self.kind == "MultiMarker" else "included")
+        return [("unchanged", z3.And(new.arr == pre.arr, new.n == pre.n)), ("flag", z3.Not(flag) if z3.is_expr(flag) else z3.BoolVal(flag is False))]
+
+
+def simplify_contract(th, kind):
+    """MarkerUnion.intersect_simplify / MultiMarker.union_simplify at a call site: None, or a marker with the combined meaning"""
+    comb = z3.And if kind == "MarkerUnion" else z3.Or      # intersect_simplify lives on MarkerUnion and intersects
+
+    def fn(ex, self_obj, args):
+        other = args[0]
+        has = z3.Bool(fresh_name("simplified"))
+        r = z3.Const(fresh_name("simp"), MK)
+        ex.assume(z3.Implies(has, z3.And(ev(r) == comb(ev(self_obj.term), ev(other.term)), z3.Implies(uses(r), z3.Or(uses(self_obj.term), uses(other.term))))))
+        return Opt(has, r, "marker")
+    return fn
+
+
+def binop_law(th):
+    def law(ex, name, a, b):
+        if not (isinstance(a, AbsObj) and isinstance(b, AbsObj)):
+            raise OutsideSubset("marker operator with a non-marker operand")
+        r = th.shape.fresh("op")
+        comb = z3.And if name in ("__and__", "__rand__") else z3.Or
+        ex.assume(ev(r.term) == comb(ev(a.term), ev(b.term)))
+        ex.assume(z3.Implies(uses(r.term), z3.Or(uses(a.term), uses(b.term))))
+        return r
+    return law
+
+
+def construct_compound(th, kind):
+    """MultiMarker(*xs) / MarkerUnion(*xs): runs the real __init__ on a scratch object, then names the result"""
+    def build(ex, args):
+        cls = th.index.cls(kind)
+        init, _ = th.index.find_method(cls, "__init__")
+        o = Obj(cls)
+        ex.call_function(init, [o] + list(args))
+        L = o.fields["markers"]
+        if not isinstance(L, AList):
+            raise OutsideSubset("compound built from a concrete list")
+        m = th.shape.fresh(kind.lower())
+        ex.assume(z3.And(cls_of(m.term) == CID[kind], kids(m.term) == L.arr, nkids(m.term) == L.n))
+        return m
+    return build
 
 
 def all_contracts(th):
-    cs = [FlattenItems(th)]
+    cs = [FlattenItems(th), Of(th, "MultiMarker"), Of(th, "MarkerUnion")]
     return {c.target: c for c in cs}
 
 
 def install(th, contracts):
     """hooks the law/method contracts used at call sites on abstract markers into the theory"""
-    pass
+    th.binop_law = binop_law(th)
+    th.method_contracts["intersect_simplify"] = simplify_contract(th, "MarkerUnion")
+    th.method_contracts["union_simplify"] = simplify_contract(th, "MultiMarker")
+    th.construct_law["MultiMarker"] = construct_compound(th, "MultiMarker")
+    th.construct_law["MarkerUnion"] = construct_compound(th, "MarkerUnion")
+
+
+def loop_specs(th):
+    from pyvc.values import BOOL
+    L = th.lshape
+    specs = {(U + "flatten_items", 0): LoopSpec({"flattened": L}, FlattenItems.outer),
+             (U + "flatten_items", 1): LoopSpec({"flattened": L}, FlattenItems.inner)}
+    for kind, q, flag in (("MultiMarker", MM, "intersected"), ("MarkerUnion", MU, "included")):
+        c = Of(th, kind)
+        specs[(q + "of", 0)] = LoopSpec({"old_markers": L, "new_markers": L}, c.outer)
+        specs[(q + "of", 1)] = LoopSpec({"new_markers": L}, c.middle)
+        specs[(q + "of", 2)] = LoopSpec({"new_markers": L, flag: BOOL}, c.inner)
+    return specs
